@@ -3,6 +3,7 @@ package server
 import (
 	"context"
 	"encoding/json"
+	"fmt"
 	"os"
 	"path/filepath"
 	"strings"
@@ -353,20 +354,27 @@ func (s *Server) publishDiagnosticsAt(ctx context.Context, docURI protocol.Docum
 		if err.Kind == include.ErrorParseError {
 			continue
 		}
+		// a problem further down the include tree is shown on the directive of
+		// this document that leads there: its own position is in another file
+		at, message := err.Range, err.Message
+		if err.File != "" && err.File != path {
+			at = err.Via
+			message = fmt.Sprintf("%s (in %s)", err.Message, filepath.Base(err.File))
+		}
 		diagnostics = append(diagnostics, protocol.Diagnostic{
 			Range: protocol.Range{
 				Start: protocol.Position{
-					Line:      uint32(max(0, err.Range.Start.Line-1)),
-					Character: uint32(max(0, err.Range.Start.Column-1)),
+					Line:      uint32(max(0, at.Start.Line-1)),
+					Character: uint32(max(0, at.Start.Column-1)),
 				},
 				End: protocol.Position{
-					Line:      uint32(max(0, err.Range.End.Line-1)),
-					Character: uint32(max(0, err.Range.End.Column-1)),
+					Line:      uint32(max(0, at.End.Line-1)),
+					Character: uint32(max(0, at.End.Column-1)),
 				},
 			},
 			Severity: severity,
 			Source:   "hledger-lsp",
-			Message:  err.Message,
+			Message:  message,
 		})
 	}
 
